@@ -356,6 +356,11 @@ def gen_case(rng, pid, tier):
             # in the second in which a server registered its presence)
             ops.append(['cycle'] if rng.random() < 0.75 else ['cycle', 0])
     ops.append(['cycle'])
+    r4 = random.Random(repr(rng.getstate()[1][:4]) + 'partition-records')
+    if r4.random() < 0.35:
+        setup['part_records'] = [[p_, r4.choice([{'cell': 'c1'}, {'cell': 'c1', 'partition': p_},
+                                                 {'cell': 'c1', 'memory': '10G', 'cpu': '100%', 'disk': '10G'}])]
+                                 for p_ in parts if p_]
     r3 = random.Random(repr(rng.getstate()[1][:4]) + 'late-racks')
     if pid in SCHED_PIDS and r3.random() < (0.3 if pid == 'C04' else 0.1):
         # (side stream) a cell that is still being built: the rack records (and with them the servers, whose parent
@@ -1951,6 +1956,10 @@ def _setup(case, w):
         w.zput('/allocations', su['allocs'])
     for g, n in su.get('idg', {}).items():
         w.zput('/identity-groups/g%s' % g, {'count': n})
+    for pname_, prec_ in su.get('part_records', []):
+        # (side stream) the partition has a record of its own under /partitions, as cellsync writes it
+        w.zput('/partitions/' + pname_, prec_)
+        w.stats['partition-record'] += 1
 
 
 def _put_server(w, sid, spec):
